@@ -168,16 +168,23 @@ Proof.
       exists w', k'. repeat split; auto. rewrite Hd'. cbn [bw_buf]. rewrite <- !app_assoc. auto.
 Qed.
 
-Lemma bw_read_from_nolimit cap p w k : sk_limit k = None -> bw_err w = false ->
-  exists w' k', bw_read_from cap w k p = (w', k', true) /\ sk_limit k' = None /\ bw_err w' = false /\
+Lemma bw_write_nolimit cap p w k : sk_limit k = None -> bw_err w = false ->
+  exists w' k', bw_write cap w k p = (w', k', true) /\ sk_limit k' = None /\ bw_err w' = false /\
     sk_data k' ++ bw_buf w' = sk_data k ++ bw_buf w ++ p.
 Proof.
-  intros Hl He. unfold bw_read_from.
-  destruct (bw_bytes_nolimit cap p w k Hl He) as (w1 & k1 & E & Hl1 & He1 & Hd1). rewrite E.
-  destruct (cap <=? length (bw_buf w1))%nat.
-  - destruct (bw_flush_nolimit w1 k1 Hl1 He1) as (w2 & k2 & Ef & Hl2 & He2 & Hb2 & Hd2).
-    exists w2, k2. repeat split; auto. rewrite Hb2, Hd2, app_nil_r. auto.
-  - exists w1, k1. auto.
+  intros Hl He. unfold bw_write, bw_direct. rewrite He.
+  destruct (length p <=? cap - length (bw_buf w))%nat.
+  - eexists _, _. split; [reflexivity|]. cbn. auto.
+  - destruct (bw_buf w) as [|b0 buf] eqn:Eb.
+    + rewrite sink_write_nolimit by auto. eexists _, _. split; [reflexivity|]. cbn. rewrite Eb, app_nil_r. auto.
+    + set (a := (cap - length (b0 :: buf))%nat).
+      set (w0 := {| bw_buf := (b0 :: buf) ++ firstn a p; bw_err := false |}).
+      destruct (bw_flush_nolimit w0 k Hl eq_refl) as (w1 & k1 & Ef & Hl1 & He1 & Hb1 & Hd1). rewrite Ef.
+      destruct (length (skipn a p) <=? cap)%nat.
+      * eexists _, _. split; [reflexivity|]. cbn [sk_limit bw_err bw_buf]. repeat split; auto.
+        rewrite Hd1. subst w0. cbn [bw_buf]. rewrite <- !app_assoc. rewrite (firstn_skipn a p). auto.
+      * rewrite sink_write_nolimit by auto. eexists _, _. split; [reflexivity|]. cbn [sk_limit sk_data]. repeat split; auto.
+        rewrite Hb1, app_nil_r, Hd1. subst w0. cbn [bw_buf]. rewrite <- !app_assoc. rewrite (firstn_skipn a p). auto.
 Qed.
 
 Lemma write_pieces_buf_nolimit cap ps : forall w k, sk_limit k = None -> bw_err w = false ->
